@@ -180,6 +180,7 @@ theorem C16_command_runs_only_live (n : Net) (op : Op) (y : Nat) (b a : Node)
     simp only [step]; rw [opLocalLogin_fst]; exact F.toPre.localLogin n y' u p (fun _ _ => rfl)
   | localLogout y' => exact (contra (F.localLogout n y')).elim
   | tick => exact (contra (F.tick n)).elim
+  | setBlock x' y' on => exact (contra (rel_setBlock F.refl n x' y' on)).elim
   | req y' c =>
     cases c with
     | file k =>
@@ -352,6 +353,7 @@ theorem C16_remote_session_only_by_valid_login (n : Net) (op : Op) (y : Nat) (b 
   | localLogin y' u p => exact (quiet rfl).elim
   | localLogout y' => exact (quiet rfl).elim
   | tick => exact (quiet rfl).elim
+  | setBlock x' y' on => exact (quiet rfl).elim
   | req x c =>
     cases c with
     | remoteLogin y' u p =>
@@ -467,6 +469,7 @@ theorem step_nextId_mono (n : Net) (op : Op) : n.nextId ≤ (step n op).1.nextId
   | localLogin y u p => simp only [step]; rw [opLocalLogin_fst]; exact localLogin_nextId n y u p
   | localLogout y => rcases opLocalLogout_cases n y with h | h <;> simp [step, h]
   | tick => simp only [step, tick_nextId]; exact Nat.le_refl _
+  | setBlock x y on => exact Nat.le_refl _
 
 def TrueRel : Nat → Node → Node → Prop := fun _ _ _ => True
 
@@ -540,6 +543,7 @@ theorem step_dead_stays_dead (n : Net) (op : Op) (y cid : Nat) (hd : Dead y cid 
   | localLogin y' u p => exact dead_of_remShrink (step_remShrink n _ rfl) (step_nextId_mono n _) hd
   | localLogout y' => exact dead_of_remShrink (step_remShrink n _ rfl) (step_nextId_mono n _) hd
   | tick => exact dead_of_remShrink (step_remShrink n _ rfl) (step_nextId_mono n _) hd
+  | setBlock x' y' on => exact dead_of_remShrink (step_remShrink n _ rfl) (step_nextId_mono n _) hd
 
 /-- **C16, ended stays ended.** Session ids are fresh: once an id that has already been handed out (`cid < nextId`) is
 not (or no longer — after logoff, time-out or password change) a remote session of node `y`, it is never a remote session
@@ -627,6 +631,7 @@ theorem C16_local_session_only_by_valid_login (n : Net) (op : Op) (y : Nat) (b a
   | enableUser y' u => exact (contra (F.toPre.enableUser n y' u (fun _ => Or.inl rfl))).elim
   | localLogout y' => exact (contra (F.localLogout n y')).elim
   | tick => exact (contra (F.tick n)).elim
+  | setBlock x' y' on => exact (contra (rel_setBlock F.refl n x' y' on)).elim
   | localLogin y' u p =>
     simp only [step] at ha
     rw [opLocalLogin_fst] at ha
@@ -790,6 +795,7 @@ theorem C16_limit_step (n : Net) (op : Op) (h : WithinLimit n) : WithinLimit (st
   | localLogin y' u p => exact within_of_limRel (step_limRel n _ rfl) h
   | localLogout y' => exact within_of_limRel (step_limRel n _ rfl) h
   | tick => exact within_of_limRel (step_limRel n _ rfl) h
+  | setBlock x' y' on => exact within_of_limRel (step_limRel n _ rfl) h
   | req y' c =>
     refine exec_induction (fun n m => WithinLimit n → WithinLimit m) (fun _ h => h) (fun _ _ _ h1 h2 h => h2 (h1 h)) ?_
       (fun n m hs => within_of_limRel (F.rel_shr F.shr (F.rel_refl n) hs))
@@ -1364,6 +1370,7 @@ theorem C16_fresh_ids_step (n : Net) (op : Op) (h : FreshIds n) : FreshIds (step
   | localLogin y' u p => exact fresh_of_remShrink (step_remShrink n _ rfl) (step_nextId_mono n _) h
   | localLogout y' => exact fresh_of_remShrink (step_remShrink n _ rfl) (step_nextId_mono n _) h
   | tick => exact fresh_of_remShrink (step_remShrink n _ rfl) (step_nextId_mono n _) h
+  | setBlock x' y' on => exact fresh_of_remShrink (step_remShrink n _ rfl) (step_nextId_mono n _) h
   | req y' c =>
     refine exec_induction (fun n m => FreshIds n → FreshIds m) (fun _ h => h) (fun _ _ _ h1 h2 h => h2 (h1 h)) ?_
       (fun n m hs => fresh_of_remShrink (F.rel_shr F.shr (F.rel_refl n) hs) (by rw [hs.nextId]; exact Nat.le_refl _))
@@ -1511,6 +1518,7 @@ theorem C16_fuel_suffices (n : Net) (op : Op) : (step n op).1.stuck = n.stuck :=
   | localLogin y u p => simp only [step]; rw [opLocalLogin_fst]; exact localLogin_not_stuck n y u p
   | localLogout y => rcases opLocalLogout_cases n y with h | h <;> simp [step, h]
   | tick => exact tick_not_stuck n
+  | setBlock x y on => rfl
 
 theorem C16_fuel_suffices_run (ops : List Op) (n : Net) : (run n ops).stuck = n.stuck := by
   induction ops generalizing n with
